@@ -16,22 +16,22 @@ const (
 )
 
 type wireStream struct {
-	id          int64
-	tag         string
-	rev         tunnelpb.ProtocolRevision
+	id           int64
+	tag          string
+	rev          tunnelpb.ProtocolRevision
 	newDelivered bool
 	// request direction
-	reqRemaining  int64 // bytes still to come of the current request message (-1: none in progress)
-	reqMsgs       int
-	halfClosed    int
-	cancels       int
+	reqRemaining int64 // bytes still to come of the current request message (-1: none in progress)
+	reqMsgs      int
+	halfClosed   int
+	cancels      int
 	// response direction
-	respRemaining int64
-	respMsgs      int
-	headers       int
-	closes        int
-	closeSeq      int64
-	closeOK       bool
+	respRemaining  int64
+	respMsgs       int
+	headers        int
+	closes         int
+	closeSeq       int64
+	closeOK        bool
 	dataAfterClose int
 }
 
@@ -442,14 +442,14 @@ type winLink struct {
 // WindowMonitor checks the sender bound and the credit bound on every
 // revision-one stream.
 type WindowMonitor struct {
-	w           *World
-	links       map[*Link]*winLink
-	JudgeClient bool
-	JudgeServer bool
-	DataEvents  int
-	Credits     int
+	w              *World
+	links          map[*Link]*winLink
+	JudgeClient    bool
+	JudgeServer    bool
+	DataEvents     int
+	Credits        int
 	MaxOutstanding int64
-	FullWindows int
+	FullWindows    int
 }
 
 // NewWindowMonitor creates the monitor.
